@@ -460,7 +460,7 @@ def cell_summary(prog, callee, depth=0):
     out = {}
     if depth <= 1:
         for p in range(1, callee.n_args + 1):
-            ty = callee.local_ty(p)
+            ty = callee.local_ty(p).replace("&mut ", "").replace("&", "").strip()
             n = 2 if ty == "bool" else _variant_count(prog, callee, ty)
             if n is None or n > 12:
                 continue
@@ -469,7 +469,7 @@ def cell_summary(prog, callee, depth=0):
                 top = False
                 for bb, env in explore_cells(prog, callee, 0, {p: frozenset([v])}, depth=depth + 1):
                     if callee.blocks[bb]["term"]["k"] == "return":
-                        e = dict(env)
+                        e = dict(cell_block_exit(prog, callee, bb, env, depth + 1))
                         if 0 in e:
                             res |= set(e[0])
                         else:
@@ -479,7 +479,12 @@ def cell_summary(prog, callee, depth=0):
     return out
 
 
-def cell_steps(prog, body, bb, env, depth=0):
+def cell_block_exit(prog, body, bb, env, depth=0):
+    """the valuation after the statements of block bb (before its terminator)"""
+    return cell_steps(prog, body, bb, env, depth, _stmts_only=True)
+
+
+def cell_steps(prog, body, bb, env, depth=0, _stmts_only=False):
     """successors of (bb, env): [(succ block, env', (switch block, value taken or 'otherwise') or None)].  `env` maps locals to the
     frozenset of values (bool as 0/1, enum variant index) they can hold; locals not in env are unknown"""
     from .core import op_place, op_const, callee_decl
@@ -491,7 +496,7 @@ def cell_steps(prog, body, bb, env, depth=0):
         mutb = set()
         for b2 in body.blocks:
             for st in b2["stmts"]:
-                if st["k"] == "assign" and not st["dst"]["p"] and st["rv"]["k"] == "discr" and not st["rv"]["place"]["p"]:
+                if st["k"] == "assign" and not st["dst"]["p"] and st["rv"]["k"] == "discr" and (not st["rv"]["place"]["p"] or st["rv"]["place"]["p"] == ["*"]):
                     alias[st["dst"]["l"]] = st["rv"]["place"]["l"]
                 if st["k"] == "assign" and st["rv"]["k"] == "ref" and st["rv"].get("mut") and not st["rv"]["place"]["p"]:
                     mutb.add(st["rv"]["place"]["l"])
@@ -528,12 +533,17 @@ def cell_steps(prog, body, bb, env, depth=0):
                 val = frozenset(1 - x for x in v)
         elif rv["k"] == "aggregate" and rv["agg"].get("kind") == "adt" and rv["agg"].get("variant") is not None and rv["agg"].get("variant_idx") is not None:
             val = frozenset([rv["agg"]["variant_idx"]])
-        elif rv["k"] == "discr" and not rv["place"]["p"]:
+        elif rv["k"] == "discr" and (not rv["place"]["p"] or rv["place"]["p"] == ["*"]):
+            val = env.get(rv["place"]["l"])
+        elif rv["k"] == "ref" and not rv.get("mut") and (not rv["place"]["p"] or rv["place"]["p"] == ["*"]):
+            # a shared borrow (or reborrow) of a cell: reading the discriminant through it gives the cell's value
             val = env.get(rv["place"]["l"])
         if val is None:
             env.pop(d["l"], None)
         else:
             env[d["l"]] = val
+    if _stmts_only:
+        return tuple(sorted(env.items()))
     t = body.blocks[bb]["term"]
     succs = [(s, None) for s in body.succ[bb]]
     if t["k"] == "call":
